@@ -48,6 +48,8 @@ ASSUMPTIONS = [
 ]
 PROBES = [
     "stall_fault_armed",
+    "libc_read_errno_fired",
+    "read_fault_in_input_file",
     "libc_errno_fired",
     "fault_in_first_chunk",
     "fault_in_middle_chunk",
@@ -193,6 +195,16 @@ def gen_cases(tier: str, verif_seed: int, runs: int | None = None) -> list[dict]
             c["chunksize"] = 10
             if en == "EIO":
                 c["prior"], c["overwrite"] = "catalog", True
+            cases.append(c)
+        # --- EIO at every libc-level READ of the input file or of the cache (file sources, shim)
+        for src in ("parquet", "hdf5", "fits"):
+            p = prng()
+            c = _base(p, 1, fault=dict(kind="libc_errno", errno="EIO", sticky=False, reads=True), shim_enumerate=True)
+            c["source"] = src
+            c["data"]["n"] = 60
+            c["patch"]["k"] = 3
+            c["chunksize"] = p.choice([16, 20, 25])
+            c["pq_rowgroup"] = p.choice([7, 10, 16])
             cases.append(c)
     if runs is not None:
         cases = cases[:runs]
@@ -428,16 +440,34 @@ def _run_shim_case(case: dict) -> dict:
             shutil.rmtree(work, ignore_errors=True)
             shutil.copytree(tpl, work)
 
+        reads = bool(f.get("reads"))
+        src_kind = case.get("source", "df")
+        if reads:
+            # the input file lives below the sandbox root as well: reads of it are numbered
+            wl.write_source(src_kind, os.path.join(tpl, "input." + src_kind), rec, None,
+                            **(dict(pq_seed=case["data"]["data_seed"], pq_rowgroup=case.get("pq_rowgroup")) if src_kind == "parquet" else {}))
+
         def workload(mode, k):
             def fn():
-                crashfs.arm(work, log if mode == crashfs.MODE_COUNT else None, mode, k, crashfs.ERRNOS[f["errno"]], f.get("sticky", False))
+                if reads:
+                    mode_ = crashfs.MODE_COUNT_READS if mode == crashfs.MODE_COUNT else crashfs.MODE_READ_ERRNO
+                else:
+                    mode_ = mode
+                crashfs.arm(work, log if mode == crashfs.MODE_COUNT else None, mode_, k, crashfs.ERRNOS[f["errno"]], f.get("sticky", False))
                 try:
                     with sequential_mode():
-                        cat = yaw.Catalog.from_dataframe(
-                            os.path.join(work, target_rel), wl.make_dataframe(rec),
-                            patch_centers=yaw.AngularCoordinates(centers), chunksize=case["chunksize"],
-                            overwrite=case.get("overwrite", False), max_workers=1, **wl.column_kwargs(rec),
-                        )
+                        if reads:
+                            cat = yaw.Catalog.from_file(
+                                os.path.join(work, target_rel), os.path.join(work, "input." + src_kind),
+                                patch_centers=yaw.AngularCoordinates(centers), chunksize=case["chunksize"],
+                                overwrite=case.get("overwrite", False), max_workers=1, **wl.column_kwargs(rec),
+                            )
+                        else:
+                            cat = yaw.Catalog.from_dataframe(
+                                os.path.join(work, target_rel), wl.make_dataframe(rec),
+                                patch_centers=yaw.AngularCoordinates(centers), chunksize=case["chunksize"],
+                                overwrite=case.get("overwrite", False), max_workers=1, **wl.column_kwargs(rec),
+                            )
                     out = ("returned", int(sum(cat.get_num_records())))
                 except Exception as err:  # noqa: BLE001
                     out = ("raised", type(err).__name__)
@@ -486,6 +516,10 @@ def _run_shim_case(case: dict) -> dict:
             faults[f["errno"]] = faults.get(f["errno"], 0) + 1
             probes["libc_errno_fired"] = probes.get("libc_errno_fired", 0) + 1
             op = oplog[k - 1].split(" ") if k <= len(oplog) else ["?", "?", "?"]
+            if reads:
+                probes["libc_read_errno_fired"] = probes.get("libc_read_errno_fired", 0) + 1
+                if op[2].startswith("input."):
+                    probes["read_fault_in_input_file"] = probes.get("read_fault_in_input_file", 0) + 1
             sig = None
             if outcome == "returned" and nu[0] != "opens_complete":
                 sig = _sig(case, dict(fs_fault_task="main"), "no_raise", op=op[1], file=os.path.basename(op[2]).split("_")[0])
